@@ -209,6 +209,8 @@ def _arr_n(h, cs):
 
 
 contract(SF, "_ChannelSchedule.last_target", props=("C10",),
+         dead_paths=("loop[0]:done",),    # the fall-through `return 0  # pragma: no cover`: the first slot is always the initial target
+
          params={"self": ("ref", "_ChannelSchedule")}, result="int",
          requires=lambda c: INV(c.old, T(c.self), only=("len>=0", "first-is-initial-target")) + [("non-empty", cs_len(c.old, T(c.self)) >= 1)],
          spec_defs=lambda c: [lti_def(*_arr_n(c.old, T(c.self)))],
